@@ -149,8 +149,8 @@ Proof.
   cbv zeta. split; [intros key n a c p; apply table_single_genuine|].
   split.
   { split; [vm_compute; reflexivity|]. split; [vm_compute; discriminate|].
-    do 3 eexists. split; [vm_compute; reflexivity|]. split; vm_compute; reflexivity. }
-  split; [do 2 eexists; split; vm_compute; reflexivity|].
+    do 3 eexists. split; [vm_compute; reflexivity|]. split; [vm_compute; reflexivity|]. vm_compute; reflexivity. }
+  split; [do 2 eexists; split; [vm_compute; reflexivity|]; vm_compute; reflexivity|].
   split; [vm_compute; reflexivity|].
   split; [vm_compute; repeat split; reflexivity|].
   split; [vm_compute; discriminate|].
